@@ -55,6 +55,10 @@ func c04Scenarios(cfg runCfg) []Scenario {
 		}
 		return out
 	}()
+	// one Check that draws a lot of data in total (2.5 M words over 40 test cases)
+	if cfg.shard%8 == 5 {
+		hist = append(hist, Scenario{Family: "big-data", Seed: mix(cfg.seed, 4, 45, uint64(cfg.shard))})
+	}
 	return append(hist, mirrored(cfg, np, func(i int) []Scenario {
 		seed := mix(cfg.seed, 4, uint64(i))
 		switch mix(seed, 404) % 4 {
@@ -120,6 +124,39 @@ func c04Run(t *testing.T, sc Scenario, res *Result) {
 	mirror := sc.X["mirror"] == "1"
 	r := newRng(sc.Seed, 0xc04)
 	switch sc.Family {
+	case "big-data":
+		// test case #k of a long, data-heavy Check draws exactly what its own seed draws in a run of its own: nothing a
+		// Check keeps across its test cases (counters, buffers) may show up in the values
+		base := sc.Seed%1000003 + 1
+		setFlags(map[string]string{"rapid.seed": fmt.Sprint(base), "rapid.checks": "40", "rapid.nofailfile": "true"})
+		big := rapid.SliceOfN(rapid.Uint64(), 30000, 30000)
+		digest := func(t *rapid.T) uint64 {
+			h := uint64(rapid.Uint8().Draw(t, "first"))
+			for _, v := range big.Draw(t, "big") {
+				h = mix(h, v)
+			}
+			return h
+		}
+		var inRun []uint64
+		tb := newTB("C04big")
+		runCheck(tb, func(t *rapid.T) { inRun = append(inRun, digest(t)) })
+		res.inc("recordings")
+		res.inc("big_data_checks")
+		res.count("big_data_cases", int64(len(inRun)))
+		res.nontrivial(fmt.Sprintf("big-data/%x", sc.Seed))
+		if tb.Failed() || len(inRun) != 40 {
+			res.violate(sc, "c04/big-data-verdict", fmt.Sprintf("a never-failing property that draws 30000 integers per test case: %d test cases ran, report %q", len(inRun), clip(parseReport(tb).Raw, 200)), nil)
+			return
+		}
+		for _, k := range []int{0, 1, 17, 28, 39} {
+			seedK := base + uint64(k*(k+1)/2) // the seed schedule of a run: +0, +1, +2, ...
+			var alone uint64
+			_, out := rapid.VerifRecord(seedK, func(t *rapid.T) { alone = digest(t) })
+			if out.Kind != "ok" || alone != inRun[k] {
+				res.violate(sc, "c04/big-data-case", fmt.Sprintf("test case #%d of the run (seed %d) drew other values than the same seed on its own (%s; digests %x vs %x)", k+1, seedK, out.Kind, inRun[k], alone), nil)
+				return
+			}
+		}
 	case "history":
 		// the values drawn for a seed must not depend on which other generators the process used before
 		self, _ := os.Executable()
